@@ -117,13 +117,23 @@ func loadGo(repo string, conf GoConfig, overlay map[string][]byte) (*GoProg, err
 		}
 	}
 	if !noRoles {
+		if !noInline {
+			p.unfoldNewConsts()
+			p.applyInline()
+		}
 		p.applyRoles()
+		if !noInline {
+			p.propagateNewLocals()
+		}
 		if !noOrient {
 			p.applyOrient()
 		}
 	}
 	return p, nil
 }
+
+// noInline disables the expansion of non-reference helper functions.
+var noInline bool
 
 // noRoles disables the renaming of locals to their reference names (only for generating the table).
 var noRoles bool
